@@ -27,6 +27,11 @@ type exec struct {
 	run  *runner
 	name string
 	revs []int // StateDB revision ids of the open frames
+
+	// generator only
+	post      []Op  // operations to append to the next transaction after its frames are closed
+	forceRoot bool  // the next transaction is followed by an IntermediateRoot
+	ghost     []int // addresses whose account was removed while it had committed storage
 }
 
 const numGetters = 15
@@ -663,6 +668,17 @@ func (x *exec) do(op Op) bool {
 				x.checkLogs()
 			}
 		}
+	case "clear":
+		// a contract zeroes all of its storage (the classic clean-up before SELFDESTRUCT)
+		if !m.CanStore(a) {
+			return false
+		}
+		for j := 0; j < NS; j++ {
+			if acc := m.acct(a); acc != nil && acc.Stor[slots[j]] != (common.Hash{}) {
+				x.setState(a, slots[j], common.Hash{})
+			}
+		}
+		x.checkAccount(a)
 	case "sweep":
 		x.sweep()
 	default:
